@@ -31,6 +31,13 @@ def make_models():
     return C.SocksModels()
 
 
+def make_models_for(unit_name):
+    if 'SingleObserver' in unit_name:
+        from props import C03
+        return C03.make_models_for(unit_name)
+    return C.SocksModels()
+
+
 def _method(ctx, name):
     import txtorcon.socks as socks
     raw = socks._SocksMachine.__dict__[name]
@@ -250,6 +257,12 @@ def units():
             if state == 'relaying' and rt != 'CONNECT':
                 continue
             out.append(('C05/disconnected@%s/%s' % (state, rt), unit_disconnected(state, rt)))
+    # the outcome of the attempt lives in a util.SingleObserver (when_done): its contract - fires once, the first value stays -
+    # is discharged against the class body here too (units shared with C03)
+    from props import C03
+    for name, u in C03.units():
+        if 'SingleObserver' in name:
+            out.append((name.replace('C03/', 'C05/'), u))
     return out
 
 
